@@ -106,6 +106,7 @@ package raterun
 //@   props C18 C05
 //@   requires r != nil && r.cancel != nil && r.stopped != nil
 //@   dyncall cancel : cancelFn
+//@   modifies nothing
 //@   ensures [quiescent] closed(r.stopped)
 //@
 //@ fnspec cancelFn()
